@@ -72,6 +72,8 @@ def execute(ch, cfg):
         if ("p", pid) in base.processed and base.outcome[("p", pid)][0]:
             targets.append(("p", pid))
     menu += [("ev", x) for x in targets]
+    if len(targets) >= 2:
+        menu += [("cond", "any", targets[0], targets[1]), ("cond", "all", targets[0], targets[1])]
     stops = []
     for i in range(cfg["S"]):
         c = ch.choose(len(menu) + 1, lambda c: "stop %s" % ("none" if c == 0 else (menu[c - 1],)), free=True)
@@ -113,6 +115,27 @@ def execute(ch, cfg):
                         sh = "occurrence-due-at-or-after-t-took-effect" if len(got) > len(exp) else "occurrence-due-before-t-missing"
                         res.bad("C03.until_num", sh, "run(until=%r): %d log entries, uninterrupted run has %d before t" % (t, len(got), len(exp)))
                         return res
+            elif st[0] == "cond":
+                # stop on a condition built over two events: run() must return the condition's value once it is processed
+                parts = []
+                for lab in st[2:]:
+                    parts.append(k.events[lab[1]] if lab[0] == "ev" else (k.procs[lab[1]] if lab[1] < len(k.procs) else None))
+                if any(p is None for p in parts):
+                    continue
+                res.ev("C03.until_ev")
+                cond = env.any_of(parts) if st[1] == "any" else env.all_of(parts)
+                try:
+                    v = env.run(until=cond)
+                except RuntimeError as e:
+                    res.bad("C03.until_ev", "until-condition-reported-as-never-triggered", "%r: %s" % (st, str(e)[:80]))
+                    return res
+                want_keys = [p for p in parts if p.processed]
+                if v is None or not hasattr(v, "keys") or list(v.keys()) != want_keys or (st[1] == "all" and len(want_keys) != 2) or not want_keys:
+                    res.bad("C03.until_ev", "until-condition-returned-a-wrong-value", "run(until=%s_of %r) returned %r" % (st[1], st[2:], v))
+                    return res
+                if any(v[p] != base.outcome[lab][1] for p, lab in zip(parts, st[2:]) if p in want_keys):
+                    res.bad("C03.until_ev", "until-condition-returned-a-wrong-value", "run(until=%s_of %r): values %r" % (st[1], st[2:], v.todict()))
+                    return res
             else:
                 lab = st[1]
                 target = k.events[lab[1]] if lab[0] == "ev" else (k.procs[lab[1]] if lab[1] < len(k.procs) else None)
@@ -338,6 +361,43 @@ def digests(depth=3):
         tr = scenario(sc, env)
         env.run(until=40)
         h.update(repr(finish_trace(tr)).encode())
+    # REDPort with the program-seeded global random source and a string element id: same drops under every hash seed
+    import random as _random
+    from onl.netdev.red_port import REDPort
+    from onl.packet import Packet as _P, PacketSink as _S
+    from onl.netdev import Hub as _Hub, Wire as _Wire
+    _random.seed(20240229)
+    env = Environment()
+    red = REDPort(env, 8, 3, 1, 0.5, "uplink-red", 5, weight_factor=1)
+    got = []
+    red.out = type("T", (), {"put": staticmethod(lambda p: got.append((env.now, p.packet_id)))})()
+
+    def burst():
+        for i in range(60):
+            red.put(_P(env.now, 1, i, flow_id=i % 3))
+            if i % 4 == 3:
+                yield env.timeout(1)
+    env.process(burst())
+    env.run(until=200)
+    h.update(repr((got, red.packets_dropped)).encode())
+    # a hub that is built incrementally (default argument lists must not be shared between hubs / runs)
+    for _ in range(2):
+        env = Environment()
+        seen = []
+
+        class St:
+            def __init__(self, name):
+                self.element_id = name; self.out = None
+
+            def put(self, p):
+                seen.append((env.now, self.element_id, p.packet_id))
+        hub = _Hub(env)
+        sts = [St("st%d" % i) for i in range(3)]
+        for i, st in enumerate(sts):
+            hub.add_endpoint(st, _Wire(env, lambda: 1) if i != 1 else None)
+        hub.put(_P(0, 1, 7, src="st0"))
+        env.run(until=5)
+        h.update(repr(seen).encode())
     # hash-ordered containers in scope
     from onl.topo import FatTree
     ft = FatTree(4)
